@@ -65,6 +65,7 @@ class TableOracle:
         self.max_table = 0
         self.seen_successors = set()
         self.waiting = {}
+        self.nl = {}
         self.keep = []
         world.monitors.append(self)
 
@@ -85,6 +86,9 @@ class TableOracle:
         kq = [q for s in node.kernel.event_socks for q in s.queue[:1]]
         self.cur = {'node': node.name, 'heads': heads, 'kq': kq, 'snap': snap_node(node, timers=False),
                     'timer': timers_due(node), 'objs': list(node.ike_sas()), 'inc': node.incarnation,
+                    # (an ended IKE_SA that a netlink transport fault kept in the table: the sweep of this iteration removes it, whatever else
+                    #  the iteration handles - the clauses that attribute every change of a step to its datagram stand back)
+                    'lingering': any(sa.state.name == 'DELETED' for sa in node.ike_sas()),
                     'child_spis': {id(sa): {x for c in sa.child_sas for x in (bytes(c.inbound_spi), bytes(c.outbound_spi))}
                                    for sa in node.ike_sas()}}
 
@@ -110,6 +114,11 @@ class TableOracle:
                 return self.viol('phantom_initial_ike_sa', {'role': 'initiator' if sa.is_initiator else 'responder'},
                                  f'{N} table holds IKE_SA {sa.my_spi.hex()} in state INITIAL after {self._trigger(cur, cause)}: '
                                  f'it never processed a message, nothing will ever remove it')
+            if st == 'DELETED' and self._nl_grace(node, cause):
+                # (a netlink transport fault - send() / recv() failing, not an answer of the kernel - aborted the teardown half-way: the ended
+                # IKE_SA is removed by the sweep of the daemon's next iteration)
+                self._r('ended_ike_sa_waits_for_next_sweep_after_transport_fault')
+                continue
             if st == 'DELETED':
                 return self.viol('ended_ike_sa_still_in_table', {'trigger': self._trigger(cur, cause)},
                                  f'{N} keeps IKE_SA {sa.my_spi.hex()} in state DELETED in its table')
@@ -180,7 +189,7 @@ class TableOracle:
                 if mine:
                     return self.viol('unknown_spi_datagram_processed', {'exchange': EXCH.get(h['exch'], str(h['exch']))},
                                      f'{N}: datagram for unknown SPI {want.hex()} was handed to IKE_SA {mine[0][0].my_spi.hex()}')
-                if not cur['timer'] and not cur['kq'] and len(cur['heads']) == 1:
+                if not cur['timer'] and not cur['kq'] and len(cur['heads']) == 1 and not cur['lingering']:
                     post = snap_node(node, timers=False)
                     ch = diff_snap(cur['snap'], post)
                     if ch:
@@ -193,7 +202,7 @@ class TableOracle:
                                      f'{N}: datagram with SPIi={h["spi_i"].hex()} SPIr={h["spi_r"].hex()} I={h["I"]} should go to '
                                      f'{want.hex()}, went to {got}')
                 self._r('routed')
-                if not cur['timer'] and not cur['kq'] and len(cur['heads']) == 1:
+                if not cur['timer'] and not cur['kq'] and len(cur['heads']) == 1 and not cur['lingering']:
                     # only the selected IKE_SA may change (and a successor / removal of itself)
                     post = snap_node(node, timers=False)
                     new_spi = known[0].new_ike_sa.my_spi.hex() if getattr(known[0], 'new_ike_sa', None) is not None else None
@@ -243,6 +252,19 @@ class TableOracle:
                 self._r('expire_unknown')
                 if got:
                     return self.viol('expire_for_foreign_spi_processed', {}, f'{N}: EXPIRE for SPI {spi.hex()} of no IKE_SA went to {got[0][0].my_spi.hex()}')
+
+    def _nl_grace(self, node, cause):
+        fired = getattr(node.kernel, 'nl_faults_fired', 0)
+        st = self.nl.setdefault(node.name, {'seen': 0, 'grace': False, 'step': -1})
+        if st['step'] == self.w.steps:
+            return st['grace']
+        st['step'] = self.w.steps
+        ck = cause[0] if isinstance(cause, tuple) else cause
+        if fired != st['seen']:
+            st['seen'], st['grace'] = fired, True
+        elif st['grace'] and ck == 'tick':
+            st['grace'] = False
+        return st['grace']
 
     def _trigger(self, cur, cause):
         if cur and cur['heads']:
@@ -327,6 +349,13 @@ def generate(seed, tier):
         # an authenticated peer that sends malformed protected messages: whatever it provokes, the table stays exact
         sc['byz'] = {'kind': 'auth_malformed', 'seed': r.randrange(2 ** 31)}
         sc['meta']['byz'] = 'auth_malformed'
+    if r.random() < 0.15:
+        # netlink transport faults (send() fails with ENOBUFS / the acknowledgement is lost): not refusals by the kernel
+        for _ in range(r.randint(1, 3)):
+            sc['ops'].append({'t': round(r.uniform(1.5, sc['until'] * 0.8), 3), 'op': 'knlfail', 'node': r.choice(names), 'nth': r.randint(1, 3),
+                              'how': r.choice(['send', 'send', 'recv'])})
+        sc['ops'].sort(key=lambda x: x['t'])
+        sc['meta']['knlfail'] = True
     return sc
 
 
